@@ -26,8 +26,9 @@ class Horizon(Exception):
 # ---------------------------------------------------------------------------
 # alphabets per mode
 
-def tocks(T):
-    return [None, 0.5 * T, T, 2 * T, 0.1]
+def tocks(T, extra=False):
+    """extra: tocks above the scheduler tock that are not multiples of it (a lagging due tyme then crosses a cycle boundary)"""
+    return [None, 0.5 * T, T, 2 * T, 0.1] + ([1.5 * T, 2.5 * T] if extra else [])
 
 
 class Mode:
@@ -35,7 +36,7 @@ class Mode:
 
     def __init__(self, name, tocks=True, rets=True, raises=False, kbd=False, enterfail=False,
                  enterdone=False, ext=(), rem=(), kinds=(0, 1, 2, 3, 4), cfg=True, horizon=3,
-                 limits=(None, 2.0, 2.5, 0.3), always=False, stale_done=False):
+                 limits=(None, 2.0, 2.5, 0.3), always=False, stale_done=False, xtocks=False, callcfg=False):
         self.name = name
         self.tocks, self.rets, self.raises, self.kbd = tocks, rets, raises, kbd
         self.enterfail, self.enterdone = enterfail, enterdone
@@ -43,19 +44,22 @@ class Mode:
         self.kinds, self.cfg, self.horizon, self.limits = tuple(kinds), cfg, horizon, limits
         self.always = always
         self.stale_done = stale_done
+        self.xtocks = xtocks
+        self.callcfg = callcfg     # limit and start tyme may be given to do()/ado() instead of the constructor
 
 
 MODES = {
     "C01": Mode("C01", raises=True, kbd=True, enterfail=True, enterdone=True,
-                ext=("fresh", "failing"), rem=("self", "prev", "next"), always=True),
+                ext=("fresh", "failing", "uncle"), rem=("self", "prev", "next", "far", "uncle"), always=True),
     "C02": Mode("C02", tocks=False, rets=True, raises=True, enterfail=True,
-                ext=("fresh", "failing", "two"), rem=("prev", "next", "parent"), always=True,
+                ext=("fresh", "failing", "two", "uncle"), rem=("prev", "next", "parent", "far", "uncle"), always=True,
                 limits=(None, 2.0, 1.0)),
-    "C03": Mode("C03", horizon=4, limits=(None, 2.5)),
+    "C03": Mode("C03", horizon=4, limits=(None, 2.5), xtocks=True),
     "C04": Mode("C04", raises=True, horizon=3, limits=(None, 2.0, 2.5)),
-    "C05": Mode("C05", raises=True, enterdone=True, always=True, stale_done=True, limits=(None, 2.0, 2.5, 0.3, 1.0, 3.0)),
-    "C06": Mode("C06", tocks=True, rets=True, ext=("fresh", "present", "dup", "done"),
-                rem=("self", "prev", "next", "dupnext", "done", "absent"), always=True, kinds=(0, 2, 4),
+    "C05": Mode("C05", raises=True, enterdone=True, always=True, stale_done=True, limits=(None, 2.0, 2.5, 0.3, 1.0, 3.0),
+                ext=("uncle",), callcfg=True),
+    "C06": Mode("C06", tocks=True, rets=True, enterdone=True, ext=("fresh", "present", "dup", "done"),
+                rem=("self", "prev", "next", "far", "dupnext", "done", "absent"), always=True, kinds=(0, 2, 4),
                 limits=(None, 3.0, 2.0)),
     "C30": Mode("C30", raises=True, enterdone=True, limits=(None, 2.0, 2.5)),
 }
@@ -100,12 +104,15 @@ class World:
                 a.append(("raise", "V"))
             if m.enterdone:
                 a.append(("done", True))
+                if kind in (2, 3, 4):      # a generator function may return before its first yield, with or without a value
+                    a.append(("done", None))
+                    a.append(("done", False))
             return a
         k = phase
         last = k >= leaf.horizon - 1
-        a = [("ret", True)] if last else [("y", getattr(leaf, "basetock", 0.0))]
+        a = [("ret", getattr(leaf, "lastret", True))] if last else [("y", getattr(leaf, "basetock", 0.0))]
         if m.tocks and not last:
-            for t in tocks(T):
+            for t in tocks(T, m.xtocks):
                 if t is None and kind == 0:
                     continue
                 a.append(("y", t))
@@ -120,11 +127,28 @@ class World:
         if m.kbd and kind in (0, 1):
             a.append(("raise", "K"))
         if not last and not leaf.fresh:
+            sibs = self.siblings(leaf)
+            i = sibs.index(leaf.name)
+            uncle = self.uncle_of(leaf) is not None
             for e in m.ext:
+                if e == "uncle" and not uncle:
+                    continue
                 a.append(("ext", e))
             for r in m.rem:
+                if r == "uncle" and not uncle:
+                    continue
+                if r == "far" and max(i, len(sibs) - 1 - i) < 2:
+                    continue
                 a.append(("rem", r))
         return a
+
+    def uncle_of(self, leaf):
+        """first sibling of the leaf that is a DoDoer (another scheduler the leaf may reach into), or None"""
+        for n in self.siblings(leaf):
+            if n != leaf.name and self.kind.get(n) == "D" and not self.exited(n) and not any(
+                    e[0] == n and e[1] in ("cease", "abort", "clean", "exit_begin") for e in self.trace):
+                return self.nodes[n]     # a DoDoer that is running (reaching into a closed one is a caller's error)
+        return None
 
     def decide(self, leaf, phase):
         if self.table is not None:
@@ -151,11 +175,12 @@ class World:
         p = self.parent[leaf.name]
         return [n for n in self.order if self.parent.get(n) == p]
 
-    def new_leaf(self, parentname, failing=False):
+    def new_leaf(self, parentname, failing=False, kind=0, horizon=2, lastret=True):
         self.fresh += 1
         name = "x%d" % self.fresh
-        leaf = make_leaf(self, name, 0, horizon=2, fresh=True)
+        leaf = make_leaf(self, name, kind, horizon=horizon, fresh=True)
         leaf.failing = failing
+        leaf.lastret = lastret
         self.parent[name] = parentname
         self.order.append(name)
         return leaf
@@ -170,6 +195,10 @@ class World:
             arg = [self.new_leaf(pn), self.new_leaf(pn, failing=True)]
         elif what == "two":
             arg = [self.new_leaf(pn), self.new_leaf(pn)]
+        elif what == "uncle":         # reach into a sibling DoDoer (not mid-pass): a generator-function doer that makes one
+            owner = self.uncle_of(leaf)                        # recur and returns without a value
+            pn = owner.name
+            arg = [self.new_leaf(pn, kind=2, horizon=1, lastret=None)]
         elif what == "present":
             # a sibling that is a member right now (a self-removed, still running doer is not "present")
             members = [name_of(x) for x in owner.doers]
@@ -185,7 +214,7 @@ class World:
             raise AssertionError(what)
         arg = [getattr(x, "doer", x) for x in arg]
         arg = [fresh_ref(x) if name_of(x) in [name_of(d) for d in owner.doers] else x for x in arg]
-        rec = dict(op="extend", by=leaf.name, owner=pn, what=what, args=[name_of(x) for x in arg],
+        rec = dict(op="extend", by=leaf.name, owner=pn, what=what, args=[name_of(x) for x in arg], cross=(what == "uncle"),
                    before=[name_of(x) for x in owner.doers], t0=len(self.trace), cycle=self.cycle)
         self.calls.append(rec)
         try:
@@ -212,6 +241,13 @@ class World:
             names = [sibs[i - 1]] if i > 0 else []
         elif what == "next":
             names = [sibs[i + 1]] if i + 1 < len(sibs) else []
+        elif what == "far":           # the sibling farthest away (kept siblings lie between the caller and the removed one)
+            names = [sibs[-1] if (len(sibs) - 1 - i) >= i else sibs[0]]
+        elif what == "uncle":         # reach into a sibling DoDoer (not mid-pass) and remove its second child (first if single)
+            owner = self.uncle_of(leaf)
+            pn = owner.name
+            kids = [n for n in self.order if self.parent.get(n) == pn]
+            names = kids[1:2] or kids[:1]
         elif what == "dupnext":
             names = [sibs[i + 1]] * 2 if i + 1 < len(sibs) else [sibs[i - 1]] * 2 if i > 0 else []
         elif what == "done":
@@ -231,7 +267,7 @@ class World:
         else:
             raise AssertionError(what)
         arg = [fresh_ref(self.nodes[n].doer) for n in names]
-        rec = dict(op="remove", by=leaf.name, owner=pn, what=what, args=names,
+        rec = dict(op="remove", by=leaf.name, owner=pn, what=what, args=names, cross=(what == "uncle"),
                    before=[name_of(x) for x in owner.doers], t0=len(self.trace), cycle=self.cycle)
         self.calls.append(rec)
         try:
@@ -277,6 +313,7 @@ class LeafBase:
         act = w.decide(self, "enter")
         if act[0] == "raise":
             raise ValueError("enter of %s raises" % self.name)
+        self.enter_ret = act[1] if act[0] == "done" else None
         return act[0] == "done"
 
     def script_step(self, tyme):
@@ -371,7 +408,7 @@ class FuncLeaf(LeafBase):
         def body(tymth=None, tock=0.0, **opts):
             try:
                 if leaf.script_enter():
-                    val = True
+                    val = leaf.enter_ret
                 else:
                     tyme = yield tock
                     while True:
@@ -533,7 +570,8 @@ def config(w, ch, shape, sweep=False):
         lims = [x for x in SWEEP_LIMITS if x is not None] if shape_has_always(shape) else SWEEP_LIMITS
         lim = ch.pick(lims, "cfg:limit", cost=0)
         mult = ch.pick([True, False], "cfg:limit-in-tocks", cost=0)
-        return T, start, (lim * T if (lim is not None and mult) else lim)
+        via = ch.pick(["ctor", "call"], "cfg:via", cost=0) if m.callcfg else "ctor"
+        return T, start, (lim * T if (lim is not None and mult) else lim), via
     if m.cfg and w.table is None:
         T = ch.pick([1.0, 0.25, 0.1], "cfg:tock")
         start = ch.pick([0.0, 2.5], "cfg:start")
@@ -541,9 +579,11 @@ def config(w, ch, shape, sweep=False):
         if shape_has_always(shape):
             lims = [x for x in lims if x is not None] or [2.0]
         lim = ch.pick(lims, "cfg:limit")
+        via = ch.pick(["ctor", "call"], "cfg:via") if m.callcfg else "ctor"
     else:
         T, start, lim = 1.0, 0.0, (2.0 if shape_has_always(shape) else None)
-    return T, start, (lim * T if lim is not None and lim != 0.3 else lim)
+        via = "ctor"
+    return T, start, (lim * T if lim is not None and lim != 0.3 else lim), via
 
 
 def run(job, ch, mode=None, table=None, cfg=None, kinds=None, runner=None):
@@ -552,8 +592,9 @@ def run(job, ch, mode=None, table=None, cfg=None, kinds=None, runner=None):
     shape = job[1]
     if cfg is None:
         cfg = config(w, ch, shape, sweep=(len(job) > 2 and "sweep" in job[2:]))
-    T, start, lim = cfg
-    w.T, w.start, w.limit = T, start, lim
+    T, start, lim = cfg[:3]
+    via = cfg[3] if len(cfg) > 3 else "ctor"
+    w.T, w.start, w.limit, w.via = T, start, lim, via
     if kinds is None:
         m = w.mode
 
@@ -573,8 +614,13 @@ def run(job, ch, mode=None, table=None, cfg=None, kinds=None, runner=None):
         for n in list(w.order):
             node = w.nodes.get(n)
             if node is not None and w.kind.get(n) != "D":
-                node.basetock = ch.pick([0.0, 0.5 * T, 0.1, 2 * T], "basetock:" + n)
-    d = LoggedDoist(w, tock=T, real=False, limit=lim, doers=doers, tyme=start)
+                node.basetock = ch.pick([0.0, 0.5 * T, 0.1, 2 * T] + ([1.5 * T] if w.mode.xtocks else []), "basetock:" + n)
+    if via == "call":     # constructor holds other (stale) values; the run's limit and start tyme are given to do()/ado()
+        d = LoggedDoist(w, tock=T, real=False, limit=(None if lim is None else lim + 3 * T), doers=doers, tyme=start + 3 * T + 0.5)
+        w.call_kwargs = dict(limit=lim, tyme=start)
+    else:
+        d = LoggedDoist(w, tock=T, real=False, limit=lim, doers=doers, tyme=start)
+        w.call_kwargs = {}
     w.doist = d
     w.result = None
     if w.mode.stale_done:
@@ -583,7 +629,7 @@ def run(job, ch, mode=None, table=None, cfg=None, kinds=None, runner=None):
         runner(w)
     else:
         try:
-            d.do()
+            d.do(**w.call_kwargs)
             w.log("#", "do_return")
             w.end = len(w.trace)  # events after this index happened after do() returned/raised
             w.result = "return"
